@@ -234,6 +234,18 @@ def run_shard(spec, rng, ctx):
             n = 10 if (spec.get("tier") != "thorough" or rng.random() < 0.7) else rng.randint(11, 12 if k == 4 else 11)
             run_certificate_pair(k, [rng.randint(1, rng.choice([30, 100, 100, 100, 300])) for _ in range(n)], rng, ctx)
         while i < spec["max_instances"] and C.now() < end:
+            if i % 8 == 5:
+                # complete Karmarkar-Karp / snp focus on cheap sizes (2-3 bins, 6-9 mid-sized values): instance volume for rare coincidences in their pruning
+                k = rng.choice([2, 2, 3])
+                vals = [rng.randint(1 if rng.random() < 0.9 else 0, rng.choice([30, 40, 100])) for _ in range(rng.randint(6, 9))]
+                vectors = O.sum_vectors(vals, k)
+                optcache = {}
+                base = {"kind": "partition", "k": k, "values": vals, "cls": "ckk_focus", "pres": rng.choice(["list", "list", "dict_str"]), "pres_seed": rng.randrange(1 << 30)}
+                for alg in ("ckk", "snp"):
+                    judge_one(dict(base, alg=alg), vectors, ctx, optcache)
+                ctx.counters["ckk_focus_instances"] += 1
+                i += 1
+                continue
             if i % 8 != 0:
                 # complete-greedy focus: MANY cheap instances (3-5 bins, 5-8 items, values up to 100), each under 6 configurations (3 objectives x the default
                 # switches and one random mask): pruning rules that cut an optimal leaf only on a rare arithmetic coincidence of the input need instance volume
